@@ -188,6 +188,7 @@ const watchdog = 20 * time.Second
 var hangConfirmed int32
 
 type outcome struct {
+	lagging       bool
 	diag          string
 	hung          string
 	violation     string
@@ -430,7 +431,6 @@ func runProgram(p program) outcome {
 		}
 		if time.Now().After(deadline) {
 			// a time-based observation: treated like a hang (reported only if the same program shows it again)
-			out.hung = fmt.Sprintf("%d peer sockets are still open %v after Shutdown returned", open, watchdog)
 			// which sockets, and what the pool's goroutines are doing
 			var which []string
 			for i, rp := range append([]*rawPeer{inbound}, peers...) {
@@ -454,6 +454,14 @@ func runProgram(p program) outcome {
 				}
 			}
 			out.diag = fmt.Sprintf("open sockets: %v\n%s", which, strings.Join(keep, "\n\n"))
+			if len(which) > 0 || len(keep) > 0 {
+				// a socket really is still open, or a pool goroutine is still alive: a hang-like observation
+				out.hung = fmt.Sprintf("%d peer sockets are still open %v after Shutdown returned", len(which), watchdog)
+			} else {
+				// the reader goroutines of the harness had not all noticed the close in time although every socket is
+				// closed and no pool goroutine is left (seen on a saturated machine): not an observation about the pool
+				out.lagging = true
+			}
 			break
 		}
 		time.Sleep(2 * time.Millisecond)
@@ -547,6 +555,9 @@ func TestC32_PoolConcurrency(t *testing.T) {
 		nt := o.overlapped >= 2 && o.connected >= 1
 		b, _ := json.Marshal(p)
 		r.CaseS(nt, string(b))
+		if o.lagging {
+			r.Count("harness_socket_counters_lagging")
+		}
 		r.CountN("connections_established", o.connected)
 		r.CountN("ops_after_shutdown", int64(o.afterShutdown))
 		if o.overlapped >= 2 {
